@@ -4,6 +4,10 @@ from props import gen_props
 
 
 def run(ctx):
+    from props import gen_unbounded
+    gen_unbounded.run_reroute(ctx, ('reroute_multiclient_out_events',))   # unbounded part: out-events to the claim holder
+    gen_unbounded.run_claim_release(ctx)                                  # unbounded part: InitializePort<Port>()
+    ctx.interp.model_strings_break_free = True
     only = os.environ.get('PYVC_SHAPES')
     gen_props.run_property(ctx, 'C04', only.split(',') if only else None)
 
